@@ -53,15 +53,17 @@ def run(rec):
                 s0 = sites[0]
                 rec.case((fname, L, rep), max(psi0.chi) >= 2, sample={'sites': fname, 'L': L} if rep == 0 and L == 3 else None)
                 # ---- apply_local_op
-                for name in sorted(s0.opnames):
+                for name in sorted(set().union(*[set(x.opnames) for x in sites])):
                     if name == 'Id':
                         continue
                     i = int(rng.integers(0, L))
+                    if name not in sites[i].opnames:
+                        continue
                     psi = psi0.copy()
                     exp = (mpsgen.op_dense(sites, [(name, i)]) @ v.reshape(-1)).reshape(v.shape)
                     if np.linalg.norm(exp) < 1e-10:
                         continue     # precondition: the operator must not annihilate the state (tenpy raises ValueError by design)
-                    if s0.op_needs_JW(name) and psi.chinfo.qnumber == 0:
+                    if sites[i].op_needs_JW(name) and psi.chinfo.qnumber == 0:
                         continue     # documented limitation: JW signs are read off the charges
                     ok, _ = rec.guarded(f'apply_local_op[{name}]:exception', lambda: psi.apply_local_op(i, name, renormalize=False), inp)
                     if not ok:
@@ -71,8 +73,7 @@ def run(rec):
                               dict(inp, op=name, site=i))
                     rec.check(np.max(np.abs(psi.norm_test())) < 1e-7, 'apply_local_op:canonical-form', f'op {name}', dict(inp, op=name, site=i))
                 # ---- apply_product_op
-                bos = [n for n in sorted(s0.opnames) if not s0.op_needs_JW(n)]
-                ops = [str(rng.choice(bos)) for _ in range(L)]
+                ops = [str(rng.choice([n for n in sorted(x.opnames) if not x.op_needs_JW(n)])) for x in sites]
                 psi = psi0.copy()
                 exp = v.reshape(-1)
                 for i, n in enumerate(ops):
